@@ -3049,3 +3049,11 @@ V(id='c39-fp-isnpint-excludes-infinity-too-late', prop='C39', file='mpmath/ctx_f
   old="        return x <= 0.0 and x - x == 0.0 and round(x) == x\n", new="        return x <= 0.0 and round(x) == x and x - x == 0.0\n", expect='fire:N-R10:isnpint')
 V(id='c39-benign-fp-isnpint-isinf', prop='C39', file='mpmath/ctx_fp.py',
   old="        return x <= 0.0 and x - x == 0.0 and round(x) == x\n", new="        return x <= 0.0 and not math.isinf(x) and round(x) == x\n", expect='silent')
+
+# ---- C37 Y-R10 (third hunt; fix 453101a) ----
+V(id='c37-bernoulli-from-man-exp-default-rounding', prop='C37', file='mpmath/libmp/gammazeta.py',
+  old="        s = from_man_exp(s, sexp, wp, round_fast)\n", new="        s = from_man_exp(s, sexp, wp)\n", expect='fire:Y-R10:mpf_bernoulli')
+V(id='c37-erf-from-man-exp-default-rounding', prop='C37', file='mpmath/libmp/libhyper.py',
+  old="from_man_exp(s, -wp, wp, round_fast)", new="from_man_exp(s, -wp, wp)", expect='fire:Y-R10')
+V(id='c37-benign-from-man-exp-keyword-rounding', prop='C37', file='mpmath/libmp/gammazeta.py',
+  old="        s = from_man_exp(s, sexp, wp, round_fast)\n", new="        s = from_man_exp(s, sexp, wp, rnd=round_fast)\n", expect='silent')
